@@ -294,7 +294,9 @@ def gen_main(ctx, variant=0):
         ps.append({"gen": rng.choice(gens), "v4": rng.random() < 0.7, "v6": True, "dns": True})
         return ps
 
-    plan = ["new-gen/both", "subnets-only/sub", "cc-bad/cc", "sub-bad/sub", "new-gen/sub", "jump/both", "new-gen/cc", "new-gen/none"]
+    # failed-reload: a new ClientConf generation is published together with a subnets file that does not load
+    plan = ["new-gen/both", "failed-reload:syntax/sub", "subnets-only/sub", "cc-bad/cc", "sub-bad/sub", "failed-reload:stage2/both", "new-gen/sub",
+            "failed-reload:missing/none", "jump/both", "failed-reload:isdir/cc", "new-gen/cc", "new-gen/none"]
     if variant:
         rng.shuffle(plan)
         plan = ["new-gen/sub"] + plan
@@ -313,7 +315,9 @@ def gen_main(ctx, variant=0):
         elif what == "cc-bad":
             rd.update(cc=cc + 1, cc_bad=True, set=setid + 50, gens=gens + [cc + 1])
         elif what == "sub-bad":
-            rd.update(cc=cc, sub_bad=True, set=setid + 60, gens=list(gens))
+            rd.update(cc=cc, sub_bad=True, sub_bad_kind="syntax", set=setid + 60, gens=list(gens))
+        elif what.startswith("failed-reload"):
+            rd.update(cc=cc + 1, sub_bad=True, sub_bad_kind=what.split(":")[1], set=setid + 70, gens=gens + [cc + 1])
         case["rounds"].append(rd)
     # free-running clients while new generations are published one after the other (no holds)
     for _ in range(25 if quick else 120):
@@ -335,11 +339,8 @@ def main_states(case):
     out = []
     for rd in case["rounds"]:
         before = st
-        if not rd["cc_bad"]:
-            s, g, a = st
-            if not rd["sub_bad"]:
-                s, g = rd["set"], list(rd["gens"])
-            st = (s, g, rd["cc"])
+        if not rd["cc_bad"] and not rd["sub_bad"]:
+            st = (rd["set"], list(rd["gens"]), rd["cc"])      # a reload whose ClientConf or subnets file does not load changes nothing
         out.append((before, st))
     return out
 
@@ -357,6 +358,7 @@ def oracle_main(ctx, case, res):
         sets_ok = {before[0], after[0]}
         where_obs = [("at-cc", o) for o in ro["at_cc"] or []] + [("at-sub", o) for o in ro["at_sub"] or []] + \
                     [("after", o) for o in ro["after"] or []] + [("after", ro["final"])] + [("stress", o) for o in ro["bad"] or []]
+        failed = rd["sub_bad"] and rd["cc"] != before[2]
         ctxcase = {"kind": "main", "round": n, "round_spec": slim(rd), "state_before": before, "state_after": after,
                    "init": {k: case[k] for k in ("init_cc", "init_set", "init_gens")}, "rounds_before": [r["what"] for r in case["rounds"][:n]]}
         for where, o in where_obs:
@@ -366,6 +368,11 @@ def oracle_main(ctx, case, res):
                  "after": "after", "stress": "sent free-running during"}[where], n, what, "unparsable" if rd["cc_bad"] else rd["cc"], rd["set"], rd["gens"],
                 before[0], before[1], before[2])
             if o["status"] != 200:
+                if failed and where != "at-cc":
+                    ctx.fail("unanswered/main/failed-reload", "after a reload whose subnets file did not load (%s) - the old subnet set is intact and the handler logs that it "
+                             "aborts the reload - a bidirectional %s registration is not answered (HTTP %s): %s"
+                             % (rd.get("sub_bad_kind"), "DNS" if o.get("dns") else "API", o["status"] or "none", desc), {**ctxcase, "observed": o, "where": where})
+                    continue
                 ctx.fail("unanswered/main/%s%s" % (where, "/dns" if o.get("dns") else ""),
                          "a bidirectional %s registration was not answered (%s%s): %s"
                          % ("DNS" if o.get("dns") else "API", ("success=false" if o["status"] else "no response") if o.get("dns") else "HTTP %s" % (o["status"] or "none"),
@@ -381,6 +388,13 @@ def oracle_main(ctx, case, res):
             gg = [x for x in (o["v4gen"] if o["v4"] else None, o["v6gen"] if o["v6"] else None) if x is not None]
             if len(set(gg)) > 1:
                 ctx.fail("mixed/main/%s" % where, "IPv4 and IPv6 phantoms selected for two different generations %s: %s" % (gg, desc), {**ctxcase, "observed": o, "where": where})
+        fin = ro["final"]
+        if fin["status"] == 200 and fin["cc"] >= 0 and fin["cc"] not in after[1]:
+            ctx.fail("generation-not-installed/main" + ("/failed-reload" if failed else ""),
+                     "after reload %d (%s) the API registrar moves outdated clients to generation %d, which the installed subnet set (%d: generations %s) does not contain"
+                     % (n, what, fin["cc"], after[0], after[1]), {**ctxcase, "observed": fin})
+        if rd["sub_bad"] and rd.get("sub_bad_kind") in ("missing", "isdir"):
+            rd = {**rd, "hold_sub": False}
         want_opens = (["cc"] if rd["hold_cc"] else []) + (["sub"] if rd["hold_sub"] and not rd["cc_bad"] else [])
         if (ro["opens"] or []) != want_opens:
             ctx.fail("reload/main/files-read", "on SIGHUP the handler opened %s, expected %s in this order (reload %d, %s)" % (ro["opens"], want_opens, n, what), ctxcase)
